@@ -66,6 +66,47 @@ def v2_file(fields, quotes, lead, a, b, body_bytes, trail=b""):
     return (lead + K.render_v2(fields, xml=xml_decl(*quotes), a=a, b=b)).encode("ascii") + body_bytes + trail
 
 
+DENSE = "é€\U0001d11eü漢"          # 2+3+4+2+3 = 14 bytes of UTF-8, no ASCII: any byte offset inside it is (mostly) mid-character
+
+
+def build_large(prm):
+    """a large version-1 / version-2 file from a small recipe (replay files stay small):
+    prm = {kind, charset, blank_lines, eol, pad, size, old, new}; -> (bytes, expected fields, expected body)."""
+    kind, charset = prm["kind"], prm["charset"]
+    codec = "utf_8" if kind == "v2" else CODECS[charset]
+    unit = DENSE if codec == "utf_8" else ("é£Ã©ÿ" if codec == "latin_1" else "é€Ã©Ÿ")
+    inner = "x" * prm["pad"] + unit * (prm["size"] // len(unit.encode(codec)) + 1)
+    body = "<OFX><A><B>" + inner + "</B></A>" + prm["eol"] + "</OFX>"
+    gap = prm["eol"] * prm["blank_lines"]
+    if kind == "v1":
+        f = K.valid_v1_fields(102, "NONE", prm["old"], prm["new"], "USASCII", charset)
+        data = K.render_v1(f, sep=prm["eol"] or "\r\n", tail=gap).encode("ascii") + body.encode(codec)
+        want = ("v1", 100, "OFXSGML", 102, "NONE", "USASCII", charset, "NONE", prm["old"], prm["new"])
+    else:
+        data = K.render_v2(K.valid_v2_fields(203, "NONE", prm["old"], prm["new"]), a=prm["eol"], b=gap).encode("ascii") + body.encode(codec)
+        want = ("v2", 200, 203, "NONE", prm["old"], prm["new"])
+    return data, want, body
+
+
+def large_predicate(H, prm, fails):
+    data, want, body = build_large(prm)
+    out = K.call(H, lambda b: H.parse_header(io.BytesIO(b)), data)
+    kind = prm["kind"]
+    what = None
+    if out[0] != "ok":
+        key, what = "parse_header:%s:large-body:%s" % (kind, out[1]), "raised %s" % out[1]
+    elif K.fields_of(H, out[1][0]) != want:
+        key, what = "parse_header:%s:large-body:fields-differ" % kind, "returned fields %r" % (K.fields_of(H, out[1][0]),)
+    elif out[1][1].strip() != body:
+        got = out[1][1].strip()
+        k = next((i for i, (a, b) in enumerate(zip(got, body)) if a != b), min(len(got), len(body)))
+        key, what = "parse_header:%s:large-body:body-differs" % kind, "returned a body of %d characters that differs from the %d expected at character %d" % (len(got), len(body), k)
+    if what:
+        fails.append(C.Failure(key, "parse_header on a %d-byte %s file (CHARSET %s, %d blank line(s) before the body, %d-byte ASCII pad) %s"
+                               % (len(data), kind, prm["charset"], prm["blank_lines"], prm["pad"], what), {"large": prm}))
+    return len(data), out[0]
+
+
 def translate():
     return K.translate()
 
@@ -179,6 +220,26 @@ def run(rep, tier, rng):
             predicate("v2", data, want, body, layout)
             tree_predicate("v2", data, want, body, layout)
 
+    # ---------------- large files (implementation only: literals of this size are not given to vm_compute) ----------------
+    # multi-byte characters everywhere in a body of 64 KiB .. 300 KiB; the ASCII pad and the number of blank lines before the body
+    # shift every character boundary through all residues, so that any fixed block / buffer boundary falls inside a character
+    n_large = 0
+    plan = []
+    for k in range(14 if not thorough else 14 * 12):
+        plan.append({"kind": "v1", "charset": "NONE", "blank_lines": rng.randrange(0, 41) if k >= 14 else (k * 3) % 41, "eol": rng.choice(["\n", "\r\n"]),
+                     "pad": k % 14, "size": rng.choice([66000, 70000, 131100, 140000, 200000, 300000]) if (thorough or k % 5 == 0) else 66000,
+                     "old": "NONE", "new": K.rand_uid(rng)})
+    for k in range(4 if not thorough else 40):
+        plan.append({"kind": rng.choice(["v1", "v1", "v2"]), "charset": rng.choice(["ISO-8859-1", "1252", "NONE"]), "blank_lines": rng.randrange(0, 41),
+                     "eol": rng.choice(["\n", "\r\n"]), "pad": rng.randrange(14), "size": rng.choice([66000, 131100, 300000]), "old": K.rand_uid(rng), "new": "NONE"})
+    for prm in plan:
+        if prm["kind"] == "v2":
+            prm["charset"] = "NONE"
+        nbytes, verdict = large_predicate(H, prm, fails)
+        n_large += 1
+        rep.count(("large", tuple(sorted(prm.items()))), nontrivial=(verdict == "ok"), kind="large:%s:%s" % (prm["kind"], verdict))
+    rep.extra["large_files"] = n_large
+
     # ---------------- the codec is the declared one ----------------
     import codecs as _c
     for charset, codec in CODECS.items():
@@ -250,13 +311,22 @@ def run(rep, tier, rng):
                 "(CRLF, LF, CR, nothing, blanks) x blanks after colons x header/body gap (none .. six blank lines) x bodies encodable in the declared charset with characters that "
                 "differ between cp1252, latin-1 and UTF-8, and valid v2 headers x quote style x line breaks around the declarations; each file parsed by parse_header and by "
                 "OFXTree.parse. malformed stream: 8+ leading blank lines, blank lines between fields, bytes undecodable in the declared charset, non-ASCII inside the header, "
-                "invalid UTF-8; codec tables vs Python. non-trivial = parse_header returned a header and a body; distinct by file bytes")
+                "invalid UTF-8; codec tables vs Python. large stream (implementation against the expected header and body only): files of 64-300 KiB whose "
+                "bodies are dense in multi-byte characters, ASCII pad 0..13 and 0..40 blank lines shifting every character boundary. "
+                "non-trivial = parse_header returned a header and a body; distinct by file bytes")
     K.correspond(rep, H, cases, "parse_header", PROP)
 
 
 def replay(obj):
     H = K.hmod()
     r = obj["replay"]
+    if r.get("large"):
+        fl = []
+        n, verdict = large_predicate(H, r["large"], fl)
+        print("replay large file %r (%d bytes) -> %s%s" % (r["large"], n, verdict, "" if not fl else ": " + fl[0].what))
+        if fl:
+            print("VIOLATION property=%s replay=(this file)" % PROP)
+        return 1 if fl else 0
     if not r.get("case"):
         print("nothing to replay")
         return 0
